@@ -1,5 +1,90 @@
+import PsiModel.Edges
 import Drivers.Common
-/-! Stub: replaced by the driver of the `Edges` model. -/
+/-!
+Driver of the `edges` model.  Ops:
+  new <m> <init 0|1> <s0in> <detect r|f|b>   -> ok | err ValueError
+  send <bits>                                -> ok <start> <end> <events>   (block stored as #k)
+  range <k> <start> <end>                    -> ok <start> <end> <events> | err ValueError
+  latest <k> <lb> <ub>                       -> same
+  combine <k1,k2,...>                        -> same | err ValueError | err IndexError
+  spec <init 0|1> <s0in> <bits>              -> ok <events>   (all transitions of the stream)
+events: `r@5,f@9` or `-`.
+-/
 namespace Psi.Driver.Edges
-def main : IO Unit := pure ()
+open Psi.Driver Psi.Edges
+
+structure St where
+  m : Nat := 1
+  detect : Detect := .both
+  st : State := ⟨[], 0⟩
+  live : Bool := false
+  blocks : Array Block := #[]
+
+def showEvent (e : Event) : String :=
+  (match e.kind with | .rising => "r" | .falling => "f") ++ "@" ++ toString e.sample
+
+def showEvents (l : List Event) : String :=
+  if l.isEmpty then "-" else ",".intercalate (l.map showEvent)
+
+def showBlock (b : Block) : String := s!"ok {b.start} {b.stop} {showEvents b.events}"
+
+def showErr : Psi.Epochs.Err → String
+  | .indexError => "IndexError"
+  | .valueError => "ValueError"
+
+def showRes : Except Psi.Epochs.Err Block → String
+  | .ok b => showBlock b
+  | .error e => s!"err {showErr e}"
+
+def parseBool? (s : String) : Option Bool :=
+  if s == "0" then some false else if s == "1" then some true else none
+
+def parseDetect? (s : String) : Option Detect :=
+  if s == "r" then some .rising else if s == "f" then some .falling
+  else if s == "b" then some .both else none
+
+def step (σ : St) (ws : List String) : St × String :=
+  match ws with
+  | ["new", m, ini, s0, det] =>
+    match parseInt? m, parseBool? ini, parseInt? s0, parseDetect? det with
+    | some m, some ini, some s0, some det =>
+      if m < 1 then ({ σ with live := false }, "err ValueError")
+      else ({ m := m.toNat, detect := det, st := init m.toNat ini s0, live := true, blocks := #[] }, "ok")
+    | _, _, _, _ => (σ, "bad-op")
+  | ["send", bits] =>
+    match parseBits? bits with
+    | some x =>
+      if !σ.live then (σ, "bad-op") else
+      match Psi.Edges.step σ.m σ.detect σ.st x with
+      | .ok (st', b) => ({ σ with st := st', blocks := σ.blocks.push b }, showBlock b)
+      | .error e => ({ σ with live := false }, s!"err {showErr e}")
+    | none => (σ, "bad-op")
+  | ["range", k, s, e] =>
+    match parseNat? k, parseInt? s, parseInt? e with
+    | some k, some s, some e =>
+      match σ.blocks[k]? with
+      | some b => (σ, showRes (getRangeSamples b s e))
+      | none => (σ, "bad-op")
+    | _, _, _ => (σ, "bad-op")
+  | ["latest", k, lb, ub] =>
+    match parseNat? k, parseInt? lb, parseInt? ub with
+    | some k, some lb, some ub =>
+      match σ.blocks[k]? with
+      | some b => (σ, showRes (getLatestSamples b lb ub))
+      | none => (σ, "bad-op")
+    | _, _, _ => (σ, "bad-op")
+  | ["combine", ks] =>
+    match parseNats? ks with
+    | some ks =>
+      match ks.mapM (fun k => σ.blocks[k]?) with
+      | some bs => (σ, showRes (combineEvents bs))
+      | none => (σ, "bad-op")
+    | none => (σ, "bad-op")
+  | ["spec", ini, s0, bits] =>
+    match parseBool? ini, parseInt? s0, parseBits? bits with
+    | some ini, some s0, some x => (σ, s!"ok {showEvents (edgesOf ini s0 x)}")
+    | _, _, _ => (σ, "bad-op")
+  | _ => (σ, "bad-op")
+
+def main : IO Unit := run ({} : St) step
 end Psi.Driver.Edges
